@@ -84,7 +84,7 @@ func (e *specEnv) trBool(x Expr) (res string) {
 func (e *specEnv) tryBool(x Expr) (res string, ok bool) {
 	defer func() {
 		if r := recover(); r != nil {
-			if se, isSpec := r.(specErr); isSpec && strings.Contains(string(se), "unknown identifier") {
+			if se, isSpec := r.(specErr); isSpec && (strings.Contains(string(se), "unknown identifier") || strings.Contains(string(se), "needs int mode")) {
 				res, ok = "", false
 				return
 			}
@@ -1244,6 +1244,18 @@ func (e *specEnv) quant(n *EQuant) sval {
 			}
 		}
 	}
+	// explicit trigger: forall x :: triggered(t1, ..., body) instantiates the quantifier on the terms t1, ... (a multi-pattern)
+	explicitPats := ""
+	if c, ok := n.Body.(*ECall); ok {
+		if id, ok := c.Fun.(*EIdent); ok && id.Name == "triggered" && len(c.Args) >= 2 {
+			var ps []string
+			for _, a := range c.Args[:len(c.Args)-1] {
+				ps = append(ps, env.tr(a).t)
+			}
+			explicitPats = ":pattern (" + strings.Join(ps, " ") + ")"
+			n = &EQuant{Forall: n.Forall, Vars: n.Vars, Body: c.Args[len(c.Args)-1]}
+		}
+	}
 	body := env.trBoolV(n.Body)
 	q := "forall"
 	if !n.Forall {
@@ -1261,6 +1273,9 @@ func (e *specEnv) quant(n *EQuant) sval {
 	var bnames []string
 	for _, qv := range n.Vars {
 		bnames = append(bnames, env.vars[qv.Name].t)
+	}
+	if explicitPats != "" && n.Forall {
+		return sval{t: "(" + q + " (" + strings.Join(binders, " ") + ") (! " + body + " " + explicitPats + "))", typ: boolT}
 	}
 	if pats := choosePatterns(body, bnames); pats != "" && n.Forall && autoPatterns {
 		return sval{t: "(" + q + " (" + strings.Join(binders, " ") + ") (! " + body + " " + pats + "))", typ: boolT}
